@@ -22,7 +22,7 @@ MANIFEST = {
             "them), node-list formatting of Builder/Compiler (format_node), format_feature/type_id/data. AArch64 operand and named-label "
             "parse-back are monitored on every run, not proved for all inputs. The encoder's bytes are inputs here (C01/C02).",
 }
-MODS = ["AsmjitVerif.Props.C20", "AsmjitVerif.Props.C20Names"]
+MODS = ["AsmjitVerif.Props.C20", "AsmjitVerif.Props.C20Names", "AsmjitVerif.Props.C20Mem"]
 
 M64 = (1 << 64) - 1
 FF = {"mc": 0x1, "alias": 0x8, "explain": 0x10, "heximm": 0x20, "hexoff": 0x40, "casts": 0x100, "pos": 0x200, "regtype": 0x400}
@@ -657,6 +657,14 @@ def run(res):
     if not vlib.driver_path().exists():
         res.violation("Lean driver does not build", {"log": out[-3000:]}, found_input=False, key="driver")
         return
+    if ok and res.tier == "thorough":
+        # independent re-check of the compiled proofs (kernel replay of the .olean files)
+        for mod in MODS:
+            p = vlib.sh(["lake", "env", "leanchecker", mod], cwd=vlib.LEAN, timeout=3600)
+            if p.returncode != 0:
+                broken.append("leanchecker rejects %s: %s" % (mod, (p.stdout + p.stderr)[-400:]))
+        res.coverage["leanchecker"] = "replayed %s" % ", ".join(MODS) if not any("leanchecker" in b for b in broken) else "FAILED"
+        res.coverage["checker_cmd"] += " && lake env leanchecker " + " ".join(MODS)
 
     # -- L2b correspondence + L3 monitor ---------------------------------------------------------------------------------------
     h = vlib.build_harness("c20")
